@@ -349,6 +349,7 @@ type Clause struct {
 	Props []string // property ids this clause serves (defaults to the function's)
 	Hints []string // spec functions to reveal / other solver hints
 	Hide  []string // spec functions kept opaque for this clause only
+	Local bool     // an ensures about the function's local variables: proved on the body, not visible to callers
 	File  string
 	Line  int
 }
@@ -476,6 +477,8 @@ func parseContractFile(path, pkgPath string) (*ContractFile, error) {
 						c.Hints = append(c.Hints, strings.Split(w[7:], ",")...)
 					} else if strings.HasPrefix(w, "hide=") {
 						c.Hide = append(c.Hide, strings.Split(w[5:], ",")...)
+					} else if w == "local" {
+						c.Local = true
 					} else {
 						c.Props = append(c.Props, w)
 					}
